@@ -140,6 +140,34 @@ def run(ctx):
         ctx.note_case("root:" + ty)
         if r[0] != "ok":
             ctx.violation("root-block-rejected:" + ty, "%s END is not accepted at the root: %r" % (ty.upper(), r), {"text": t})
+    # ---- a rejected input must not influence the next call: after each of several failing texts (ending in the
+    # keywords the token-retyping hook looks at, in an open string, in a half-read block) every root block type is
+    # still accepted - through one reused Parser and through the module-level loads
+    poisons = ["LAYER TYPE POINT NAME", "STYLE SYMBOL", "MAP NAME", "CLASS STYLE SYMBOL circle", "MAP NAME 'unterminated", "LAYER NAME grid", "MAP LAYER", "END END"]
+    root_types = docs.object_types() + ["metadata", "validation", "connectionoptions", "symbolset"]
+    g_mod = Guarded(build.REPO, module_api=True)
+    n_hist = 0
+    try:
+        for pi, poison in enumerate(poisons):
+            for ty in root_types:
+                t = ty.upper() + "\nEND"
+                for which, g in (("reused Parser", None), ("mappyfile.loads", g_mod)):
+                    if g is g_mod and (pi > 1 and ctx.tier == "quick"):
+                        continue
+                    if g is None:
+                        classify_guarded(poison)
+                        r, _s = classify_guarded(t)
+                    else:
+                        g.classify(poison, 30.0)
+                        r, _s = g.classify(t, 30.0)
+                    n_hist += 1
+                    ctx.note_case(("after", poison, ty, which))
+                    if r[0] != "ok":
+                        ctx.violation("root-block-rejected-after-failure:" + ty, "%s END is not accepted at the root by %s after the rejected input %r: %r" % (ty.upper(), which, poison, r),
+                                      {"text": t, "history": [poison], "api": which})
+    finally:
+        g_mod.close()
+    ctx.count("history_after_failure_cases", n_hist)
     # ---- time against length: valid documents (parsed completely) and documents failing at their end
     sizes = [20000, 200000] + ([2000000] if ctx.tier == "thorough" else [])
     units = mutate.VALID_UNITS if ctx.tier == "thorough" else rng.sample(mutate.VALID_UNITS, 4)
